@@ -713,6 +713,10 @@ class Interp:
             m = self.models.obj_getattr(self, obj, name)
             if m is not None:
                 return m
+            if obj.cls is None and not obj.ghost.get('closed') and not (name.startswith('__') and name.endswith('__')):
+                # an abstract stand-in written by a contract exposes only the interface the contract models: whether the REAL
+                # object has this attribute is unknown, so neither AttributeError nor a default may be concluded
+                raise Unsupported('attribute %r of the abstract stand-in <%s> is not modelled' % (name, obj.tag))
             if default is not KeyError:
                 return default
             raise PyExc('AttributeError', name)
